@@ -557,6 +557,18 @@ func BuildCombinedTypeSystem(roots []json.RawMessage) (*schema.TypeSystem, []str
 }
 
 // ProtoPairEngine adapts a registry of (type-level, representation-level) prototypes -- generated code.
+// GenProtos: the prototypes (type level, representation level) of the freshly generated package, by type
+// name; nil in the plain vh binary, set by the runner that is built together with the generated code.
+var GenProtos map[string][2]datamodel.NodePrototype
+
+// GenEngine is the generated-code engine (nil prototypes: not available in this binary).
+func GenEngine() (Engine, bool) {
+	if GenProtos == nil {
+		return Engine{}, false
+	}
+	return ProtoPairEngine("gengo", GenProtos), true
+}
+
 func ProtoPairEngine(name string, protos map[string][2]datamodel.NodePrototype) Engine {
 	return Engine{name, func(ts *schema.TypeSystem, tn string) (schema.TypedPrototype, error) {
 		pp, ok := protos[tn]
